@@ -10,3 +10,5 @@ import FpVerif.Properties.C16
 import FpVerif.Properties.C10
 import FpVerif.Properties.C11
 import FpVerif.Properties.C17
+import FpVerif.Properties.C06
+import FpVerif.Properties.C07
